@@ -229,9 +229,30 @@ func (m *Master) acceptLoop() {
 }
 
 func writePacket(c net.Conn, seq byte, payload []byte) error {
-	hdr := []byte{byte(len(payload)), byte(len(payload) >> 8), byte(len(payload) >> 16), seq}
-	_, err := c.Write(append(hdr, payload...))
+	_, err := writePackets(c, seq, payload)
 	return err
+}
+
+// writePackets sends a payload as the protocol prescribes: in chunks of 2^24-1 bytes, the last chunk
+// being shorter (possibly empty); it returns the number of packets (= sequence numbers) used.
+func writePackets(c net.Conn, seq byte, payload []byte) (int, error) {
+	const max = 1<<24 - 1
+	n := 0
+	for {
+		chunk := payload
+		if len(chunk) > max {
+			chunk = chunk[:max]
+		}
+		hdr := []byte{byte(len(chunk)), byte(len(chunk) >> 8), byte(len(chunk) >> 16), seq + byte(n)}
+		if _, err := c.Write(append(hdr, chunk...)); err != nil {
+			return n, err
+		}
+		n++
+		payload = payload[len(chunk):]
+		if len(chunk) < max {
+			return n, nil
+		}
+	}
 }
 
 func readPacket(c net.Conn) (byte, []byte, error) {
@@ -467,8 +488,9 @@ func (p *ConnPlan) dump(c net.Conn, req Command) {
 			_, err = c.Write(append(hdr, s.Payload[:n]...))
 			seq++
 		} else {
-			err = writePacket(c, seq+byte(s.SeqSkew), s.Payload)
-			seq++
+			var np int
+			np, err = writePackets(c, seq+byte(s.SeqSkew), s.Payload)
+			seq += byte(np)
 		}
 		if err != nil {
 			break
